@@ -4,9 +4,13 @@ import MoPepGen.Lemmas.GraphCuts
 import MoPepGen.Lemmas.Haplotype
 import MoPepGen.Lemmas.Tvg
 import MoPepGen.Lemmas.TvgLoop
+import MoPepGen.Lemmas.TvgLang
+import MoPepGen.Lemmas.TvgLive
+import MoPepGen.Lemmas.TvgPool
 import MoPepGen.Props.C10
 /-!
-# C01 — completeness of callVariant  (PARTIAL: the graph construction is not modelled)
+# C01 — completeness of callVariant  (PARTIAL: of the graph algorithm only the first stage,
+`create_variant_graph` on small records, is modelled — and for it the language theorem is proved)
 
 What is proved here, for ALL inputs: the executable oracle `Spec.callVariant`, which the
 check evaluates on the inputs of the real command, is exactly the declarative statement of
@@ -16,6 +20,8 @@ sub-collections of the record pool (`mem_haplotypes_iff`: no enumeration, no sor
 the statement), and its digest is the digest proved correct in C10.
 That the REAL command reports every member of this set is decided per generated input by
 the differential `harness/c01.py` (no theorem quantifies over the real graph algorithm).
+Layer G (further down): checkpoint theorems, and the function-level model of the first stage with
+the full language theorem `tvg_create_variant_graph_language_eq`.
 -/
 namespace MoPepGen.Props.C01
 open MoPepGen MoPepGen.Spec
@@ -436,12 +442,18 @@ tie to the real code is STRUCTURAL: on every check run the graph the real
 with the graph of `Tvg.createVariantGraph` on the same transcript and records (`G-tvgbuild`
 stream of `harness/c01.py`).
 
-FULL LANGUAGE THEOREM (the goal; NOT proved in full):
+FULL LANGUAGE THEOREM (PROVED below as `tvg_create_variant_graph_language_eq`, for inputs
+satisfying the decidable `poolInputOk`):
 
     for every transcript `t` and record list `vs` in scope with
     `Tvg.createVariantGraph inp vs = .ok g`, and every frame `f` that is active from the start
     (the known ORF frame of a coding transcript, all three frames otherwise):
     `{ (sequence, record ids) of the maximal paths of g from frame root f } = tvgLang t vs f`.
+
+It is about the MODEL of the first stage; the model is tied to the real `create_variant_graph`
+per generated input (`G-tvgbuild`: structural equality of the graphs; `G-tvglang`: the record
+lists of all maximal paths of the real graph), and the later stages (`fit_into_codons`,
+`translate`, cleavage graph, traversal) are not modelled — which is why C01 stays PARTIAL.
 
 What is proved, for all inputs (no size bound):
   * `tvg_partition_invariant` — in every state reachable by `init_three_frames` followed by
@@ -462,7 +474,8 @@ What is proved, for all inputs (no size bound):
   * `tvg_path_language_sound_partial` / `tvg_create_variant_graph_sound_partial` — the soundness
     half of the language theorem: every maximal path spells the `applyHap` sequence of the
     records it takes, which are separated.
-What is missing for the full theorem is listed at `tvg_path_language_sound_partial` below. -/
+  * the completeness half, the record pool and the full theorem: see the section "completeness
+    half of the language theorem" below. -/
 
 open MoPepGen.Tvg in
 /-- **Partition invariant.**  For every transcript `t` with at least three bases and every graph
@@ -597,13 +610,12 @@ preconditions hold), every frame `f`, the reference node `i` of that frame start
 every maximal path `p` from it: the records `h` the path takes are records that have a variant
 node in the graph, they are ascending and strictly separated, and the path spells
 `(applyHap t h).drop f` — the graph denotes no sequence outside the definition's form.
-MISSING for the full statement: (a) that the variant nodes of `createVariantGraph inp vs` carry
-exactly `recordPool t vs` (the filter and `find_mnvs_from_adjacent_variants` against `usable` /
-`mergedPairs` — compared per input by the `G-tvgbuild` stream and by checkpoint CP1, not proved);
-(b) completeness — every separated sub-collection of the pool has a path from every frame that
-is active from the start, which needs the `active_frames` argument (a frame a path can be in
-carries every later record).  (That the cursor loop only issues calls whose preconditions hold
-IS proved: `tvg_create_variant_graph_reach`.) -/
+What was missing here when this theorem was stated is proved further down: (a) the variant
+nodes of `createVariantGraph inp vs` carry exactly `recordPool t vs`
+(`tvg_var_pool_eq_record_pool`), (b) completeness — every separated sub-collection of the pool
+has a path from every frame that is active from the start (`tvg_path_language_complete`,
+`tvg_create_variant_graph_complete`); together `tvg_create_variant_graph_language_eq`.  (The name
+`_partial` is kept for the record; this theorem is the soundness half.) -/
 theorem tvg_path_language_sound_partial (t : List Char) (h3 : 3 ≤ t.length) (s : TState)
     (hR : Reach t s) (i f b : Nat) (hi : IsRef s i f f b) (p : List Nat) (hp : TPath s i p) :
     (∀ v ∈ pathVarsT s p, v ∈ varPool s) ∧ separated (pathVarsT s p) = true ∧
@@ -643,6 +655,287 @@ theorem tvg_create_variant_graph_sound_partial (inp : TvgIn) (vs : List Rec) (g 
     (∀ v ∈ pathVarsT g p, v ∈ varPool g) ∧ separated (pathVarsT g p) = true ∧
       pathSeqT g p = (applyHap inp.seq (pathVarsT g p)).drop f :=
   tvg_path_language_sound_partial inp.seq h3 g (createVariantGraph_reach_of_inOk h3 hvs h) i f b hi p hp
+
+/-! ### completeness half of the language theorem
+
+`Model/TvgLang.lean` defines the decidable condition `attached s f h`: the first record of `h` has
+a variant node in frame `f` and, if more records follow, one of the frames its `variant_end`
+edges lead to carries the rest in the same sense.  (`create_variant_graph` attaches a record only
+to the frames that are active when it is reached, and a frameshifting record moves the path into
+another frame's reference chain, so "the record has a variant node somewhere" is not enough.)
+
+PROVED, for all inputs:
+  * `tvg_path_language_complete` — in every reachable state, every strictly separated `h` that is
+    attached from frame `f` on has a maximal path from the reference node of frame `f` starting at
+    `f` that takes exactly `h` and spells `(applyHap t h).drop f`;
+  * `tvg_path_attached` — conversely the records of every maximal path are attached, so
+  * `tvg_path_language_eq` — the path language of frame `f` of ANY reachable state is exactly
+    `{ ((applyHap t h).drop f, h) | h strictly separated, attached from f on }`;
+  * `tvg_create_variant_graph_attached` — in the graph `createVariantGraph inp vs` returns, every
+    strictly separated list of records that have a variant node is attached from every frame that
+    is ACTIVE FROM THE START (the known-ORF frame of a coding transcript, all three frames
+    otherwise).  This is the `active_frames` argument: with the records in ascending order of
+    start (`tvg_records_ascending`: CPython's `sorted` on `VariantRecord.__lt__`) a frame that a
+    path can be in was activated at or before the record that leads into it and carries every
+    later record (`Lemmas/TvgLive.lean`, `LiveInv`);
+  * `tvg_create_variant_graph_complete`, `tvg_create_variant_graph_language_eq_partial` — hence
+    the path language of such a frame is exactly the `applyHap` sequences of ALL strictly
+    separated sub-collections of the records that have a variant node (`varPool g`).
+  * `tvg_var_pool_eq_record_pool` — (a): for inputs satisfying `poolInputOk` the records that
+    have a variant node are exactly `Spec.recordPool` of the input (filter = `usable`, MNV merge =
+    `mergedPairs`, the loop skips no record);
+  * `tvg_create_variant_graph_language_eq` — the full statement: paths of `g` = `tvgLang t vs f`. -/
+
+open MoPepGen.Tvg in
+/-- the start node the language theorems speak about exists and is unique: in every reachable
+state each frame `f` has exactly one reference node that starts at `f` -/
+theorem tvg_frame_start_node (t : List Char) (h3 : 3 ≤ t.length) (s : TState) (hR : Reach t s)
+    (f : Nat) (hf : f < 3) :
+    ∃ i b, IsRef s i f f b ∧ ∀ j b', IsRef s j f f b' → j = i := by
+  obtain ⟨hI, _⟩ := reach_inv h3 hR
+  obtain ⟨i, a, b, hi, h1, h2⟩ := hI.cover f f hf (Nat.le_refl _) (by omega)
+  have ha : a = f := by have := (hI.ref_ok hi).2.1; omega
+  subst ha
+  refine ⟨i, b, hi, ?_⟩
+  intro j b' hj
+  have := (hI.ref_ok hj).2.2.1
+  exact hI.disjoint j i a a b' a b hj hi (by omega) (by omega)
+
+open MoPepGen.Tvg in
+/-- **Completeness half of the language theorem**, for every reachable state `s`, every frame `f`,
+the reference node `i` of that frame starting at `f` and every list of records `h` that is
+strictly separated (ascending, neither overlapping nor adjacent) and `attached` along the frames
+from `f` on: there is a maximal path from `i` that takes exactly the records `h` and spells
+`(applyHap t h).drop f`.  Frame-bridging (frameshifting) records included. -/
+theorem tvg_path_language_complete (t : List Char) (h3 : 3 ≤ t.length) (s : TState)
+    (hR : Reach t s) (i f b : Nat) (hi : IsRef s i f f b) (h : List Var)
+    (hatt : attached s f h = true) (hsep : separated h = true) :
+    ∃ p, TPath s i p ∧ pathVarsT s p = h ∧ pathSeqT s p = (applyHap t h).drop f := by
+  obtain ⟨hI, hL⟩ := reach_inv h3 hR
+  exact tpath_language_complete hI hL hi hatt hsep
+
+open MoPepGen.Tvg in
+/-- the condition is necessary: the records of every maximal path from a reference node of frame
+`f` are attached along the frames from `f` on -/
+theorem tvg_path_attached (t : List Char) (h3 : 3 ≤ t.length) (s : TState) (hR : Reach t s)
+    (i f a b : Nat) (hi : IsRef s i f a b) (p : List Nat) (hp : TPath s i p) :
+    attached s f (pathVarsT s p) = true :=
+  (tpath_attached (reach_inv h3 hR).1 hp).1 f a b hi
+
+open MoPepGen.Tvg in
+/-- **The path language of a frame, as a set** — for every reachable state: `(w, h)` is the
+(sequence, records) pair of a maximal path from the reference node of frame `f` starting at `f`
+if and only if `h` is strictly separated, attached along the frames from `f` on, and
+`w = (applyHap t h).drop f`. -/
+theorem tvg_path_language_eq (t : List Char) (h3 : 3 ≤ t.length) (s : TState) (hR : Reach t s)
+    (i f b : Nat) (hi : IsRef s i f f b) (w : List Char) (h : List Var) :
+    (∃ p, TPath s i p ∧ pathSeqT s p = w ∧ pathVarsT s p = h) ↔
+      (attached s f h = true ∧ separated h = true ∧ w = (applyHap t h).drop f) := by
+  obtain ⟨hI, hL⟩ := reach_inv h3 hR
+  exact tpath_language_eq hI hL hi w h
+
+open MoPepGen.Tvg in
+/-- when every record of the graph has a variant node in each of the three frames (`allFrames`),
+every strictly separated list of records of the graph is attached from every frame -/
+theorem tvg_attached_of_all_frames (t : List Char) (h3 : 3 ≤ t.length) (s : TState) (hR : Reach t s)
+    (hall : allFrames s = true) (h : List Var) (f : Nat) (hf : f < 3)
+    (hpool : ∀ v ∈ h, v ∈ varPool s) (hsep : separated h = true) : attached s f h = true := by
+  obtain ⟨hI, hL⟩ := reach_inv h3 hR
+  exact attached_of_allFrames hI hL hall h f hf hpool hsep
+
+open MoPepGen.Tvg in
+/-- `sorted(variants)` of `create_variant_graph` (CPython's `list.sort` on `VariantRecord.__lt__`,
+fewer than 64 records) hands the loop the records in ascending order of their start -/
+theorem tvg_records_ascending (inp : TvgIn) (vs l : List Rec) (h : variantsWithMnv inp vs = .ok l) :
+    l.Pairwise fun a b => a.start ≤ b.start :=
+  variantsWithMnv_asc h
+
+open MoPepGen.Tvg in
+/-- **the `active_frames` argument.**  In the graph `createVariantGraph inp vs` returns (input
+records: non-empty stretches inside the transcript, no fusion), for every frame `f` that is active
+from the start (`initialActive`: the known-ORF frame of a coding transcript, all three frames
+otherwise) every strictly separated list of records that have a variant node is attached along
+the frames from `f` on. -/
+theorem tvg_create_variant_graph_attached (inp : TvgIn) (vs : List Rec) (g : TState)
+    (h3 : 3 ≤ inp.seq.length) (hvs : ∀ v ∈ vs, InOk inp.seq v)
+    (h : createVariantGraph inp vs = .ok g) (A0 : List Bool) (hA0 : initialActive inp = .ok A0)
+    (f : Nat) (hf : A0.getD f false = true) (hs : List Var) (hpool : ∀ v ∈ hs, v ∈ varPool g)
+    (hsep : separated hs = true) : attached g f hs = true :=
+  createVariantGraph_attached h3 hvs h hA0 hf hpool hsep
+
+open MoPepGen.Tvg in
+/-- **Completeness for `createVariantGraph` itself**: from the reference node of every frame `f`
+that is active from the start, every strictly separated sub-collection `hs` of the records that
+have a variant node has a maximal path that takes exactly `hs` and spells
+`(applyHap seq hs).drop f`. -/
+theorem tvg_create_variant_graph_complete (inp : TvgIn) (vs : List Rec) (g : TState)
+    (h3 : 3 ≤ inp.seq.length) (hvs : ∀ v ∈ vs, InOk inp.seq v)
+    (h : createVariantGraph inp vs = .ok g) (A0 : List Bool) (hA0 : initialActive inp = .ok A0)
+    (i f b : Nat) (hf : A0.getD f false = true) (hi : IsRef g i f f b)
+    (hs : List Var) (hpool : ∀ v ∈ hs, v ∈ varPool g) (hsep : separated hs = true) :
+    ∃ p, TPath g i p ∧ pathVarsT g p = hs ∧ pathSeqT g p = (applyHap inp.seq hs).drop f :=
+  tvg_path_language_complete inp.seq h3 g (createVariantGraph_reach_of_inOk h3 hvs h) i f b hi hs
+    (createVariantGraph_attached h3 hvs h hA0 hf hpool hsep) hsep
+
+open MoPepGen.Tvg in
+/-- **The language theorem for `createVariantGraph`, relative to the records in the graph.**
+FULL STATEMENT: the set below equals `tvgLang t vs f` — proved as
+`tvg_create_variant_graph_language_eq` under `poolInputOk`; this version needs only `InOk`.
+PROVED HERE: for every frame `f` active from the start, `(w, hs)` is the (sequence, records) pair of a
+maximal path from the reference node of frame `f` starting at `f` if and only if `hs` is a strictly
+separated list of records that have a variant node in the graph and `w = (applyHap seq hs).drop f`.
+NOT IN THIS VERSION: (a) that the records with a variant node are exactly `Spec.recordPool` of the
+input (`tvg_var_pool_eq_record_pool`). -/
+theorem tvg_create_variant_graph_language_eq_partial (inp : TvgIn) (vs : List Rec) (g : TState)
+    (h3 : 3 ≤ inp.seq.length) (hvs : ∀ v ∈ vs, InOk inp.seq v)
+    (h : createVariantGraph inp vs = .ok g) (A0 : List Bool) (hA0 : initialActive inp = .ok A0)
+    (i f b : Nat) (hf : A0.getD f false = true) (hi : IsRef g i f f b)
+    (w : List Char) (hs : List Var) :
+    (∃ p, TPath g i p ∧ pathSeqT g p = w ∧ pathVarsT g p = hs) ↔
+      ((∀ v ∈ hs, v ∈ varPool g) ∧ separated hs = true ∧ w = (applyHap inp.seq hs).drop f) := by
+  have hR := createVariantGraph_reach_of_inOk h3 hvs h
+  rw [tvg_path_language_eq inp.seq h3 g hR i f b hi w hs]
+  constructor
+  · rintro ⟨_, h2, rfl⟩
+    obtain ⟨p, hp, hv, _⟩ := tvg_path_language_complete inp.seq h3 g hR i f b hi hs ‹_› h2
+    have := (tvg_path_language_sound_partial inp.seq h3 g hR i f b hi p hp).1
+    rw [hv] at this
+    exact ⟨this, h2, rfl⟩
+  · rintro ⟨h1, h2, rfl⟩
+    exact ⟨createVariantGraph_attached h3 hvs h hA0 hf h1 h2, h2, rfl⟩
+
+open MoPepGen.Tvg in
+/-- a transcript without a known ORF: all three frames are active from the start, so the
+language theorem holds from every frame -/
+theorem tvg_create_variant_graph_complete_noncoding (inp : TvgIn) (vs : List Rec) (g : TState)
+    (h3 : 3 ≤ inp.seq.length) (hvs : ∀ v ∈ vs, InOk inp.seq v) (hnc : inp.hasKnownOrf = false)
+    (h : createVariantGraph inp vs = .ok g)
+    (i f b : Nat) (hf : f < 3) (hi : IsRef g i f f b)
+    (hs : List Var) (hpool : ∀ v ∈ hs, v ∈ varPool g) (hsep : separated hs = true) :
+    ∃ p, TPath g i p ∧ pathVarsT g p = hs ∧ pathSeqT g p = (applyHap inp.seq hs).drop f := by
+  have hA0 : initialActive inp = .ok [true, true, true] := by simp [initialActive, hnc, pure, Except.pure]
+  have : ([true, true, true] : List Bool).getD f false = true := by
+    have : f = 0 ∨ f = 1 ∨ f = 2 := by omega
+    rcases this with rfl | rfl | rfl <;> rfl
+  exact tvg_create_variant_graph_complete inp vs g h3 hvs h _ hA0 i f b this hi hs hpool hsep
+
+open MoPepGen.Tvg in
+/-- **the record lists of the maximal paths, computed without walking the graph.**  For every
+reachable state: `attachedSubs s f` (the sub-collections of the records of the graph that, in
+ascending order, are strictly separated and attached from frame `f` on) lists exactly the record
+lists of the maximal paths from the reference node of frame `f` starting at `f`.  The driver op
+`G tvglang` prints this list for the model's graph and the harness compares it with the paths it
+enumerates in the graph the REAL `create_variant_graph` built. -/
+theorem tvg_attached_subs_spec (t : List Char) (h3 : 3 ≤ t.length) (s : TState) (hR : Reach t s)
+    (i f b : Nat) (hi : IsRef s i f f b) (h : List Var) :
+    h ∈ attachedSubs s f ↔ ∃ p, TPath s i p ∧ pathVarsT s p = h := by
+  obtain ⟨hI, hL⟩ := reach_inv h3 hR
+  exact mem_attachedSubs hI hL hi h
+
+open MoPepGen.Tvg in
+/-- … and for the graph of `createVariantGraph` and a frame active from the start that list is
+ALL strictly separated lists of records that have a variant node -/
+theorem tvg_create_variant_graph_attached_subs (inp : TvgIn) (vs : List Rec) (g : TState)
+    (h3 : 3 ≤ inp.seq.length) (hvs : ∀ v ∈ vs, InOk inp.seq v)
+    (h : createVariantGraph inp vs = .ok g) (A0 : List Bool) (hA0 : initialActive inp = .ok A0)
+    (i f b : Nat) (hf : A0.getD f false = true) (hi : IsRef g i f f b) (hs : List Var) :
+    hs ∈ attachedSubs g f ↔ (∀ v ∈ hs, v ∈ varPool g) ∧ separated hs = true := by
+  have hR := createVariantGraph_reach_of_inOk h3 hvs h
+  rw [tvg_attached_subs_spec inp.seq h3 g hR i f b hi hs]
+  constructor
+  · rintro ⟨p, hp, rfl⟩
+    obtain ⟨h1, h2, _⟩ := tvg_path_language_sound_partial inp.seq h3 g hR i f b hi p hp
+    exact ⟨h1, h2⟩
+  · rintro ⟨h1, h2⟩
+    obtain ⟨p, hp, hv, _⟩ := tvg_create_variant_graph_complete inp vs g h3 hvs h A0 hA0 i f b hf hi hs h1 h2
+    exact ⟨p, hp, hv⟩
+
+open MoPepGen.Tvg in
+/-- **(a) the variant nodes carry exactly the record pool of the definition.**  For every input
+that satisfies the decidable `poolInputOk` (what `call_peptide_main` guarantees: known ORF ⇔ the
+sequence carries one, `max_adjacent_as_mnv = 2`, records of the modelled types, non-empty
+stretches inside the transcript, typed `INDEL` exactly when the alleles make an insertion or a
+deletion, ascending starts): a record has a variant node in the graph `createVariantGraph inp vs`
+returns if and only if it is — up to the merge class, which a graph record does not carry — a
+record of `Spec.recordPool` (a `usable` input record or a merged adjacent pair).  Three parts:
+the "Filter variants" loop is `filterMap usable` (`filterAll_usable`),
+`find_mnvs_from_adjacent_variants` on ascending records is `mergedPairs`
+(`findMnvs_mergedPairs`: its `break` loses nothing), and the cursor loop skips no record
+(`cvgLoop_live`: no cursor ever starts behind a record, none runs off the end). -/
+theorem tvg_var_pool_eq_record_pool (inp : TvgIn) (vs : List Rec) (g : TState)
+    (hok : poolInputOk inp vs = true) (h : createVariantGraph inp vs = .ok g) (x : Var) :
+    x ∈ varPool g ↔ ∃ u ∈ recordPool inp.toTx (vs.map Rec.toSpec), x = eraseCls u := by
+  have h3 := (poolInputOk_iff hok).2.2.1
+  obtain ⟨_, _, _, l, _, hl, _, _, hpool⟩ := createVariantGraph_live h3 (poolInputOk_inOk hok) h
+  rw [hpool]
+  constructor
+  · rintro ⟨r, hr, rfl⟩
+    exact ⟨r.toSpec, (variantsWithMnv_recordPool hok hl _).mp ⟨r, hr, rfl⟩, rfl⟩
+  · rintro ⟨u, hu, rfl⟩
+    obtain ⟨r, hr, rfl⟩ := (variantsWithMnv_recordPool hok hl u).mpr hu
+    exact ⟨r, hr, rfl⟩
+
+open MoPepGen.Tvg MoPepGen.Graph in
+/-- **THE LANGUAGE THEOREM for `create_variant_graph`** (the full statement announced above, for
+the modelled record kinds).  For every input satisfying `poolInputOk`, if
+`createVariantGraph inp vs = .ok g`, then for every frame `f` that is active from the start (the
+known-ORF frame of a coding transcript, all three frames otherwise) and the reference node `i` of
+that frame starting at `f` (the child of frame root `f`):
+
+    { (sequence, record ids) of the maximal paths of g from i } = tvgLang t vs f
+
+— the `applyHap` sequences (from position `f`) and id lists of ALL compatible combinations of the
+definition's record pool, the empty one included; nothing else, nothing missing. -/
+theorem tvg_create_variant_graph_language_eq (inp : TvgIn) (vs : List Rec) (g : TState)
+    (hok : poolInputOk inp vs = true) (h : createVariantGraph inp vs = .ok g)
+    (A0 : List Bool) (hA0 : initialActive inp = .ok A0)
+    (i f b : Nat) (hf : A0.getD f false = true) (hi : IsRef g i f f b)
+    (w : List Char) (ids : List Nat) :
+    (∃ p, TPath g i p ∧ pathSeqT g p = w ∧ hapIds (pathVarsT g p) = ids) ↔
+      (w, ids) ∈ tvgLang inp.toTx (vs.map Rec.toSpec) f := by
+  have h3 := (poolInputOk_iff hok).2.2.1
+  have hvs := poolInputOk_inOk hok
+  have hR := createVariantGraph_reach_of_inOk h3 hvs h
+  obtain ⟨hI, _⟩ := reach_inv h3 hR
+  have hpool := tvg_var_pool_eq_record_pool inp vs g hok h
+  -- pool records are non-empty stretches (their erased forms sit on variant nodes)
+  have hpos : ∀ u ∈ recordPool inp.toTx (vs.map Rec.toSpec), u.start ≤ u.stop := by
+    intro u hu
+    obtain ⟨k, m, r, hk, hr⟩ := mem_varPool_iff.mp ((hpool (eraseCls u)).mpr ⟨u, hu, rfl⟩)
+    have := (hI.var_ok hk).2.2.1
+    have e1 : r.start = u.start := by rw [show u.start = (eraseCls u).start from rfl, ← hr]; rfl
+    have e2 : r.stop = u.stop := by rw [show u.stop = (eraseCls u).stop from rfl, ← hr]; rfl
+    omega
+  simp only [tvgLang, allHaps, List.mem_map, List.mem_cons, Prod.mk.injEq]
+  constructor
+  · rintro ⟨p, hp, rfl, rfl⟩
+    obtain ⟨h1, h2, h3'⟩ := tvg_path_language_sound_partial inp.seq h3 g hR i f b hi p hp
+    obtain ⟨h', e, hsub⟩ := lift_erase (pool := recordPool inp.toTx (vs.map Rec.toSpec))
+      (pathVarsT g p) (fun v hv => (hpool v).mp (h1 v hv))
+    refine ⟨h', ?_, ?_, ?_⟩
+    · cases h' with
+      | nil => exact Or.inl rfl
+      | cons a t =>
+        right
+        apply (mem_haplotypes_iff _ _ _ hpos).mpr
+        refine ⟨by simp, ?_, hsub⟩
+        rw [← separated_map_erase, e]; exact h2
+    · rw [h3', ← e, applyHap_map_erase]; rfl
+    · rw [← e, hapIds_map_erase]
+  · rintro ⟨h', hmem, rfl, rfl⟩
+    have hh : separated h' = true ∧ ∀ u ∈ h', u ∈ recordPool inp.toTx (vs.map Rec.toSpec) := by
+      rcases hmem with rfl | hmem
+      · exact ⟨rfl, by simp⟩
+      · exact ((mem_haplotypes_iff _ _ _ hpos).mp hmem).2
+    obtain ⟨p, hp, hv, hs⟩ := tvg_create_variant_graph_complete inp vs g h3 hvs h A0 hA0 i f b hf hi
+      (h'.map eraseCls)
+      (fun v hv => by
+        obtain ⟨u, hu, rfl⟩ := List.mem_map.mp hv
+        exact (hpool _).mpr ⟨u, hh.2 u hu, rfl⟩)
+      (by rw [separated_map_erase]; exact hh.1)
+    refine ⟨p, hp, ?_, ?_⟩
+    · rw [hs, applyHap_map_erase]; rfl
+    · rw [hv, hapIds_map_erase]
 
 /-! non-vacuity: the transcript `ATGGCCAAATAGGC` (known ORF at 0) with the SNV `G→T` at 3 and the
 frameshifting insertion `A→AC` at 7.  `create_variant_graph` applies the SNV in frame 0, the
@@ -727,6 +1020,93 @@ example : 3 ≤ tvgT.length ∧ (∀ v ∈ [tvgSnv, tvgIns], InOk tvgT v) ∧ tv
   intro v hv
   simp only [List.mem_cons, List.not_mem_nil, or_false] at hv
   rcases hv with rfl | rfl <;> exact ⟨by decide, by decide, by decide⟩
+
+/-! non-vacuity of the completeness half.  In the example graph the SNV was reached when only
+frame 0 was active, the insertion activated the other two: `[SNV, insertion]` is attached from
+frame 0 on (the path above), `[SNV]` is NOT attached from frame 1 (the condition discriminates),
+`[insertion]` is attached from every frame. -/
+example : separated [tvgSnv.toVar, tvgIns.toVar] = true ∧
+    attached tvgS4 0 [tvgSnv.toVar, tvgIns.toVar] = true ∧ attached tvgS4 1 [tvgSnv.toVar] = false ∧
+    attached tvgS4 1 [tvgIns.toVar] = true ∧ attached tvgS4 2 [tvgIns.toVar] = true ∧
+    bridgeFrames tvgS4 0 tvgIns.toVar = [2] ∧ allFrames tvgS4 = false := by decide
+
+/-- `tvg_path_language_complete` applies to the example: the path exists (through the theorem) -/
+example : ∃ p, TPath tvgS4 4 p ∧ pathVarsT tvgS4 p = [tvgSnv.toVar, tvgIns.toVar] ∧
+    pathSeqT tvgS4 p = (applyHap tvgT [tvgSnv.toVar, tvgIns.toVar]).drop 0 :=
+  tvg_path_language_complete tvgT (by decide) _ tvg_example_reach 4 0 3 ⟨_, rfl⟩ _ (by decide) (by decide)
+
+/-- … and `tvg_path_language_eq` read from right to left gives the same path, from left to right
+it says that no maximal path from the frame-1 chain takes the SNV -/
+example : ¬ ∃ p, TPath tvgS4 5 p ∧ pathSeqT tvgS4 p = (applyHap tvgT [tvgSnv.toVar]).drop 1 ∧
+    pathVarsT tvgS4 p = [tvgSnv.toVar] := by
+  rw [tvg_path_language_eq tvgT (by decide) _ tvg_example_reach 5 1 7 ⟨_, rfl⟩]
+  decide
+
+/-- the hypotheses of `tvg_create_variant_graph_attached` / `_complete` hold for the example:
+frame 0 is the frame active from the start, both records have a variant node -/
+example : initialActive { seq := tvgT, hasKnownOrf := true, orf := some (0, 9), mrnaEndNF := false } =
+      .ok [true, false, false] ∧
+    (∀ v ∈ [tvgSnv.toVar, tvgIns.toVar], v ∈ varPool tvgS4) ∧ IsRef tvgS4 4 0 0 3 := by
+  refine ⟨rfl, ?_, ⟨_, rfl⟩⟩
+  intro v hv
+  simp only [List.mem_cons, List.not_mem_nil, or_false] at hv
+  rcases hv with rfl | rfl <;> decide
+
+/-- the records the loop of the example walks over, in ascending order (`tvg_records_ascending`) -/
+example : (variantsWithMnv { seq := tvgT, hasKnownOrf := true, orf := some (0, 9), mrnaEndNF := false }
+    [tvgIns, tvgSnv]).toOption = some [tvgSnv, tvgIns] := by decide +kernel
+
+/-- the same records on the transcript WITHOUT a known ORF: all three frames are active from the
+start, every record gets a variant node in every frame (`allFrames`), so
+`tvg_attached_of_all_frames` / `tvg_create_variant_graph_complete_noncoding` apply from each frame -/
+def tvgNc : Except String TState :=
+  createVariantGraph { seq := tvgT, hasKnownOrf := false, orf := none, mrnaEndNF := false }
+    [tvgSnv, tvgIns]
+example : (tvgNc.toOption.map fun g => (g.nodes.length, allFrames g,
+    [0, 1, 2].map fun f => attached g f [tvgSnv.toVar, tvgIns.toVar])) =
+    some (25, true, [true, true, true]) := by decide +kernel
+
+/-- the record lists of the maximal paths of the example graph: from frame 0 every combination,
+from frames 1 and 2 only those without the SNV -/
+example : ((attachedSubs tvgS4 0).map fun h => h.map (·.ids)) = [[], [[1]], [[0]], [[0], [1]]] ∧
+    ((attachedSubs tvgS4 1).map fun h => h.map (·.ids)) = [[], [[1]]] ∧
+    ((attachedSubs tvgS4 2).map fun h => h.map (·.ids)) = [[], [[1]]] := by decide +kernel
+
+/-! non-vacuity of (a) and of the language theorem: the same transcript with an insertion anchored
+ON the last base of the start codon (re-anchored by the filter: `2:3 G→GT` becomes `3:4 G→TG`) and
+two adjacent SNVs (merged into the MNV `5:7 CA→GT` with ids `[1, 2]`; taken separately they are
+adjacent, hence not compatible).  The input satisfies `poolInputOk` (an unsorted one does not),
+the record pool of the definition has four records, they are the records of the graph, and the
+maximal paths of frame 0 are the eight combinations of `tvgLang`. -/
+/-- example input (not part of any statement) -/
+def tvgInp2 : TvgIn := { seq := tvgT, hasKnownOrf := true, orf := some (0, 9), mrnaEndNF := false }
+def tvgIns2 : Rec := { start := 2, stop := 3, ref := ['G'], alt := ['G', 'T'], type := "INDEL", ids := [0] }
+def tvgSnv5 : Rec := { start := 5, stop := 6, ref := ['C'], alt := ['G'], type := "SNV", ids := [1] }
+def tvgSnv6 : Rec := { start := 6, stop := 7, ref := ['A'], alt := ['T'], type := "SNV", ids := [2] }
+
+example : poolInputOk tvgInp2 [tvgIns2, tvgSnv5, tvgSnv6] = true ∧
+    poolInputOk tvgInp2 [tvgSnv6, tvgSnv5] = false := by decide
+
+example : ((recordPool tvgInp2.toTx ([tvgIns2, tvgSnv5, tvgSnv6].map Rec.toSpec)).map fun u =>
+      (u.start, u.stop, String.ofList u.ref, String.ofList u.alt, u.ids)) =
+    [(3, 4, "G", "TG", [0]), (5, 6, "C", "G", [1]), (6, 7, "A", "T", [2]), (5, 7, "CA", "GT", [1, 2])] := by
+  decide +kernel
+
+open MoPepGen.Graph in
+example : ((createVariantGraph tvgInp2 [tvgIns2, tvgSnv5, tvgSnv6]).toOption.map fun g =>
+      (((varPool g).eraseDups.map fun u => (u.start, u.stop, u.ids)),
+       ((attachedSubs g 0).map fun h => (String.ofList ((applyHap tvgT h).drop 0), hapIds h)))) =
+    some ([(3, 4, [0]), (5, 6, [1]), (5, 7, [1, 2]), (6, 7, [2])],
+      [("ATGGCCAAATAGGC", []), ("ATGGCCTAATAGGC", [2]), ("ATGGCGTAATAGGC", [1, 2]),
+       ("ATGGCGAAATAGGC", [1]), ("ATGTGCCAAATAGGC", [0]), ("ATGTGCCTAATAGGC", [0, 2]),
+       ("ATGTGCGTAATAGGC", [0, 1, 2]), ("ATGTGCGAAATAGGC", [0, 1])]) := by decide +kernel
+
+open MoPepGen.Graph in
+example : ((tvgLang tvgInp2.toTx ([tvgIns2, tvgSnv5, tvgSnv6].map Rec.toSpec) 0).map fun x =>
+      (String.ofList x.1, x.2)) =
+    [("ATGGCCAAATAGGC", []), ("ATGGCGTAATAGGC", [1, 2]), ("ATGGCCTAATAGGC", [2]),
+     ("ATGGCGAAATAGGC", [1]), ("ATGTGCCAAATAGGC", [0]), ("ATGTGCGTAATAGGC", [0, 1, 2]),
+     ("ATGTGCCTAATAGGC", [0, 2]), ("ATGTGCGAAATAGGC", [0, 1])] := by decide +kernel
 
 /-- a `splice` whose precondition holds (the frame-1 node `[1, 14)` cut at offset 4) -/
 example : SplicePre tvgS0 5 4 ∧
